@@ -485,33 +485,99 @@ func ruleIDGRPC(c *Ctx) {
 	// Dial dials the address of the message it received for its id
 	if f := p.Fn("GRPCBroker.DialWithOptions"); f != nil {
 		info := f.Pkg.TypesInfo
-		var msgV types.Object
+		// pairwise copies between locals (x := y; x, e = y, nil), as written or as
+		// left behind by inlining a helper
+		type copyEdge struct{ dst, src *types.Var }
+		var copies []copyEdge
+		other := map[*types.Var][]ast.Expr{} // non-copy right-hand sides per local
 		ast.Inspect(f.Body, func(x ast.Node) bool {
-			if as, ok := x.(*ast.AssignStmt); ok && len(as.Rhs) == 1 {
-				if u, ok := ast.Unparen(as.Rhs[0]).(*ast.UnaryExpr); ok && u.Op == token.ARROW {
-					msgV = identObj(info, as.Lhs[0])
+			as, ok := x.(*ast.AssignStmt)
+			if !ok {
+				return true
+			}
+			if len(as.Lhs) == len(as.Rhs) {
+				for i, l := range as.Lhs {
+					dv, _ := identObj(info, l).(*types.Var)
+					if dv == nil || dv.IsField() {
+						continue
+					}
+					if sv, ok := identObj(info, ast.Unparen(as.Rhs[i])).(*types.Var); ok && !sv.IsField() {
+						copies = append(copies, copyEdge{dv, sv})
+					} else if !isNilIdent(info, as.Rhs[i]) {
+						other[dv] = append(other[dv], as.Rhs[i])
+					}
+				}
+			} else if len(as.Rhs) == 1 {
+				for _, l := range as.Lhs {
+					if dv, _ := identObj(info, l).(*types.Var); dv != nil && !dv.IsField() {
+						other[dv] = append(other[dv], as.Rhs[0])
+					}
 				}
 			}
 			return true
 		})
+		msgVs := map[types.Object]bool{}
+		ast.Inspect(f.Body, func(x ast.Node) bool {
+			if as, ok := x.(*ast.AssignStmt); ok && len(as.Rhs) == 1 {
+				if u, ok := ast.Unparen(as.Rhs[0]).(*ast.UnaryExpr); ok && u.Op == token.ARROW {
+					if o := identObj(info, as.Lhs[0]); o != nil {
+						msgVs[o] = true
+					}
+				}
+			}
+			return true
+		})
+		for changed := true; changed; {
+			changed = false
+			for _, ce := range copies {
+				if msgVs[ce.src] && !msgVs[ce.dst] {
+					// the copy target holds the message only if it has no other source
+					if len(other[ce.dst]) == 0 {
+						msgVs[ce.dst] = true
+						changed = true
+					}
+				}
+			}
+		}
 		uses := 0
 		ast.Inspect(f.Body, func(x ast.Node) bool {
-			if se, ok := x.(*ast.SelectorExpr); ok && (se.Sel.Name == "Network" || se.Sel.Name == "Address") && msgV != nil && identObj(info, se.X) == msgV {
+			if se, ok := x.(*ast.SelectorExpr); ok && (se.Sel.Name == "Network" || se.Sel.Name == "Address") && msgVs[identObj(info, se.X)] {
 				uses++
 			}
 			return true
 		})
-		// the address resolved is what netAddrDialer receives
+		// the address resolved is what netAddrDialer receives: following copies
+		// backwards from its argument, every value comes from a net.Resolve*Addr call
 		okDial := false
 		for _, call := range f.Calls() {
 			if p.CalleeName(f, call) == modPath+".netAddrDialer" {
 				if av, ok := identObj(info, call.Args[0]).(*types.Var); ok {
-					for _, c2 := range f.Calls() {
-						nm := p.CalleeName(f, c2)
-						if (nm == "net.ResolveTCPAddr" || nm == "net.ResolveUnixAddr") && assignedVar(p, info, c2) == av {
-							okDial = true
+					set := map[*types.Var]bool{av: true}
+					for changed := true; changed; {
+						changed = false
+						for _, ce := range copies {
+							if set[ce.dst] && !set[ce.src] {
+								set[ce.src] = true
+								changed = true
+							}
 						}
 					}
+					nRes, bad := 0, false
+					for v := range set {
+						for _, r := range other[v] {
+							c2, isCall := ast.Unparen(r).(*ast.CallExpr)
+							nm := ""
+							if isCall {
+								nm = p.CalleeName(f, c2)
+							}
+							if nm == "net.ResolveTCPAddr" || nm == "net.ResolveUnixAddr" {
+								nRes++
+							} else {
+								bad = true
+							}
+						}
+					}
+					okDial = nRes > 0 && !bad
 				}
 			}
 		}
